@@ -378,6 +378,11 @@ func (e *envModel) unmarshal(fr *frame, format string, data []value, target valu
 		return iface{t: types.NewPointer(t.Type()), v: &v}
 	}
 	tr, ok := e.tokenOf[sliceKey(data)]
+	if format == "yaml" && !ok && blankYAML(data) {
+		// no YAML document at all (empty, blank or comment-only input): yaml.Unmarshal reports
+		// no error and leaves the destination as it is
+		return iface{}
+	}
 	if !ok || len(data) == 0 {
 		// raw bytes: not a document the model can decode -> decode error
 		if format == "yaml" {
@@ -417,8 +422,112 @@ func (e *envModel) unmarshal(fr *frame, format string, data []value, target valu
 		}
 		return mkErr(format + ": cannot unmarshal string into Go struct field ." + tr.doc.broken)
 	}
-	i.assignDecoded(dst, deepCopy(src), it.t)
+	i.assignDecodedFmt(dst, deepCopy(src), it.t, format)
 	return iface{}
+}
+
+// blankYAML: concrete bytes holding only white space and comment lines (no document).
+func blankYAML(data []value) bool {
+	inComment := false
+	for _, b := range data {
+		c, ok := b.(uint8)
+		if !ok {
+			return false
+		}
+		switch {
+		case c == '\n':
+			inComment = false
+		case inComment:
+		case c == '#':
+			inComment = true
+		case c == ' ' || c == '\t' || c == '\r':
+		default:
+			return false
+		}
+	}
+	return true
+}
+
+// readerFile finds the model file behind a reader value: an *os.File of the model, or a
+// *bufio.Reader (or anything with a single io.Reader field) wrapped around one.
+func (i *interpreter) readerFile(r value, depth int) *openFile {
+	if depth > 3 {
+		return nil
+	}
+	if it, ok := r.(iface); ok {
+		r = it.v
+	}
+	p, ok := r.(*value)
+	if !ok || p == nil {
+		return nil
+	}
+	if of := i.env.open[p]; of != nil {
+		return of
+	}
+	if sv, ok := (*p).(structure); ok {
+		for _, f := range sv {
+			if it, ok := f.(iface); ok && it.t != nil {
+				if of := i.readerFile(it, depth+1); of != nil {
+					return of
+				}
+			}
+		}
+	}
+	return nil
+}
+
+func init() {
+	newDecoder := func(pkg, typ string) func(fr *frame, a []value) value {
+		return func(fr *frame, a []value) value {
+			i := fr.i
+			dp := i.prog.ImportedPackage(pkg)
+			if dp == nil {
+				i.abort(abortUnsupported, pkg+" not loaded")
+			}
+			var cell value = zero(dp.Type(typ).Type())
+			p := &cell
+			i.env.decoders[p] = a[0]
+			return p
+		}
+	}
+	decode := func(format string) func(fr *frame, a []value) value {
+		return func(fr *frame, a []value) value {
+			i := fr.i
+			e := i.env
+			p, _ := a[0].(*value)
+			of := i.readerFile(e.decoders[p], 0)
+			if of == nil {
+				i.abort(abortUnsupported, format+" Decoder over a reader that is not a model file")
+			}
+			if strings.HasSuffix(of.path, "/") {
+				return i.pathError("read", of.path, eisdir)
+			}
+			from := of.pos
+			if from > len(of.data) {
+				from = len(of.data)
+			}
+			rest := of.data[from:]
+			whole := of.pos == 0
+			of.pos = len(of.data)
+			if blankYAML(rest) || len(rest) == 0 {
+				// a stream without a (further) document
+				iop := i.prog.ImportedPackage("io")
+				i.ensureInit(iop)
+				return *i.shared[iop.Members["EOF"].(*ssa.Global)]
+			}
+			data := rest
+			if fl := e.files[of.path]; whole && fl != nil && fl.doc != nil {
+				// the reader delivers the file's bytes: the document identity goes with them
+				data = append([]value(nil), rest...)
+				e.tokenOf[sliceKey(data)] = tokenRef{fl.doc, len(fl.data)}
+			}
+			return e.unmarshal(fr, format, data, a[1])
+		}
+	}
+	externals["gopkg.in/yaml.v3.NewDecoder"] = newDecoder("gopkg.in/yaml.v3", "Decoder")
+	externals["(*gopkg.in/yaml.v3.Decoder).Decode"] = decode("yaml")
+	externals["encoding/json.NewDecoder"] = newDecoder("encoding/json", "Decoder")
+	externals["(*encoding/json.Decoder).Decode"] = decode("json")
 }
 
 type keptField struct {
@@ -447,6 +556,13 @@ func fieldByTag(t types.Type, cur value, name string) keptField {
 // they keep the destination's current value and in freshly created nested
 // values they are zero.
 func (i *interpreter) assignDecoded(dst *value, src value, ptrT types.Type) {
+	i.assignDecodedFmt(dst, src, ptrT, "")
+}
+
+// assignDecodedFmt: as assignDecoded; additionally, for a known format, a top-level field
+// tagged `,omitempty` whose encoded value was empty is absent from the document, so the
+// destination keeps what it had (only concrete emptiness is recognised).
+func (i *interpreter) assignDecodedFmt(dst *value, src value, ptrT types.Type, format string) {
 	elemT := deref(ptrT)
 	nv := clearSkipped(src, elemT)
 	if st, ok := elemT.Underlying().(*types.Struct); ok {
@@ -456,12 +572,52 @@ func (i *interpreter) assignDecoded(dst *value, src value, ptrT types.Type) {
 					tag := st.Tag(k)
 					if strings.Contains(tag, `yaml:"-"`) || strings.Contains(tag, `json:"-"`) {
 						ns[k] = cur[k]
+						continue
+					}
+					if format != "" && omitEmptyTag(tag, format) && concretelyEmpty(ns[k]) {
+						ns[k] = cur[k]
 					}
 				}
 			}
 		}
 	}
 	*dst = nv
+}
+
+func omitEmptyTag(tag, format string) bool {
+	k := strings.Index(tag, format+`:"`)
+	if k < 0 {
+		return false
+	}
+	rest := tag[k+len(format)+2:]
+	if e := strings.IndexByte(rest, '"'); e >= 0 {
+		rest = rest[:e]
+	}
+	return strings.Contains(rest, ",omitempty")
+}
+
+func concretelyEmpty(v value) bool {
+	switch x := v.(type) {
+	case nil:
+		return true
+	case []value:
+		return len(x) == 0
+	case *value:
+		return x == nil
+	case *smap:
+		return x == nil || len(x.live()) == 0
+	case string:
+		return x == ""
+	case bool:
+		return !x
+	case int:
+		return x == 0
+	case int64:
+		return x == 0
+	case float64:
+		return x == 0
+	}
+	return false
 }
 
 // clearSkipped zeroes struct fields tagged `yaml:"-"` or `json:"-"` (they are
